@@ -36,7 +36,7 @@ func refZigZag(v int64) uint64 {
 	if v >= 0 {
 		return uint64(v) * 2
 	}
-	return uint64(-(v + 1))*2 + 1
+	return uint64(-(v+1))*2 + 1
 }
 
 func refVarintLen(v uint64) int {
@@ -89,6 +89,8 @@ func oracleFor(op *Sexp, res string) []string {
 		return oracleDesc(op, res)
 	case "internsched":
 		return oracleInternSched(op, res)
+	case "interntrace":
+		return oracleInternTrace(op, res)
 	case "sched":
 		return oracleSched(op, res)
 	case "regtrace":
